@@ -96,19 +96,22 @@ class Recognizer(IRecognizer):
             message = '{}\nExpected a list'.format(node.start_mark)
             return set(), (message, [])
         item_type = generic_type_args(expected_type)[0]
+        ambiguous = None
         for item in node.value:
             recognized_types, result = self.recognize(item, item_type)
             if len(recognized_types) == 0:
                 message = '{}\nExpected {}'.format(
                         item.start_mark, type_to_desc(expected_type))
                 return set(), (message, [result])
-            if len(recognized_types) > 1:
-                recognized_types = {
+            if len(recognized_types) > 1 and ambiguous is None:
+                # keep looking, a later item may not match at all
+                ambiguous = ({
                     List[t]  # type: ignore
                     for t in recognized_types
-                }
-                return recognized_types, result
+                }, result)
 
+        if ambiguous is not None:
+            return ambiguous
         return {expected_type}, REC_OK
 
     def __recognize_dict(self, node: yaml.Node,
@@ -135,26 +138,30 @@ class Recognizer(IRecognizer):
             return set(), (message, [])
 
         value_type = generic_type_args(expected_type)[1]
+        ambiguous = None
         for key, value in node.value:
             recognized_key_types, kresult = self.recognize(key, key_type)
             if len(recognized_key_types) == 0:
                 return set(), kresult
-            if len(recognized_key_types) > 1:
-                return {
+            if len(recognized_key_types) > 1 and ambiguous is None:
+                # keep looking, a later entry may not match at all
+                ambiguous = ({
                     Dict[t, value_type]  # type: ignore
                     for t in recognized_key_types
-                }, kresult  # type: ignore
+                }, kresult)
 
             recognized_value_types, vresult = self.recognize(
                     value, value_type)
             if len(recognized_value_types) == 0:
                 return set(), vresult
-            if len(recognized_value_types) > 1:
-                return {
+            if len(recognized_value_types) > 1 and ambiguous is None:
+                ambiguous = ({
                     Dict[key_type, t]  # type: ignore
                     for t in recognized_value_types
-                }, vresult  # type: ignore
+                }, vresult)
 
+        if ambiguous is not None:
+            return ambiguous     # type: ignore
         return {expected_type}, REC_OK
 
     def __recognize_union(self, node: yaml.Node,
